@@ -34,7 +34,7 @@ def spec_req(c, G, idx, li):
 
 def correspondence(ctx, drv):
     reqs, metas, rate_reqs = [], [], []
-    for _ in range(ctx.scale(300, 3000)):
+    for _ in range(ctx.scale(1000, 5000)):
         c = allsims.gen_case(ctx.rng, "Gillespie_simple_contagion")
         out, G, idx = allsims.run_impl(c, rng=ctx.rng, full=True)
         rep = dict(entry="Gillespie_simple_contagion", case=strip(c), tape=out["tape"])
@@ -98,7 +98,7 @@ def correspondence(ctx, drv):
 def one_step_law(ctx, drv):
     import contextlib, EoN.simulation as sim
     reqs, metas = [], []
-    for _ in range(ctx.scale(60, 600)):
+    for _ in range(ctx.scale(150, 800)):
         c = allsims.gen_case(ctx.rng, "Gillespie_simple_contagion", nmax=4 if not ctx.thorough else 4)
         if c.get("directed") and c["n"] > 3:
             continue
